@@ -1,6 +1,8 @@
 package main
 
 import (
+	"time"
+
 	"github.com/mfcochauxlaberge/jsonapi"
 )
 
@@ -118,6 +120,29 @@ func nearVal(r *Rng, v any, a jsonapi.Attr) any {
 		if x != nil {
 			b := tweakBytes(r, *x)
 			return &b
+		}
+	case time.Time:
+		// the same instant in another zone, or an adjacent instant
+		switch r.IntN(3) {
+		case 0:
+			return x.In(time.FixedZone("", 7200))
+		case 1:
+			return x.UTC()
+		default:
+			return x.Add(time.Nanosecond)
+		}
+	case *time.Time:
+		if x != nil {
+			var y time.Time
+			switch r.IntN(3) {
+			case 0:
+				y = x.In(time.FixedZone("", -3600))
+			case 1:
+				y = x.UTC()
+			default:
+				y = x.Add(-time.Nanosecond)
+			}
+			return &y
 		}
 	case int8:
 		if r.bool() && x < 127 {
